@@ -110,6 +110,286 @@ type sinkObs struct {
 
 var pairSeen sync.Map
 
+// runComp builds the composition, runs senders and control goroutines, and returns a violation ("" = ok).
+type compResult struct {
+	desc           string
+	hasGated       bool
+	mutatingBehind bool
+	perType        map[string]int
+	nEnc, nCE      int
+}
+
+func runComp(t interface{ Fatalf(string, ...any) }, root string, caseNo int, specs []pipeSpec, senders, per int, controls bool) compResult {
+	src, _ := url.Parse("https://example.test/src")
+	var descParts []string
+	for _, s := range specs {
+		descParts = append(descParts, s.String())
+	}
+	desc := fmt.Sprintf("%s senders=%d sends=%d controls=%v", strings.Join(descParts, " | "), senders, per, controls)
+
+	b, _ := eventlogger.NewBroker()
+	insts := map[string]eventlogger.Node{}
+	var encs []*encrypt.Filter
+	var ces []*cloudevents.FormatterFilter
+	var gats []*gated.Filter
+	sinks := map[string]*sinkObs{}
+	var stopDrain []chan struct{}
+	var drainWG sync.WaitGroup
+	keys := []cryptoref.Key{cryptoref.NewKey(1), cryptoref.NewKey(2)}
+	get := func(kind string, share int, formatKeyName string) (string, eventlogger.Node) {
+		id := fmt.Sprintf("%s-%d", kind, share)
+		if kind == "file" || kind == "writer" || kind == "chan" {
+			id += "-" + formatKeyName
+		}
+		if n, ok := insts[id]; ok {
+			return id, n
+		}
+		var n eventlogger.Node
+		switch kind {
+		case "filter":
+			n = &eventlogger.Filter{Predicate: func(e *eventlogger.Event) (bool, error) { return true, nil }}
+		case "encrypt":
+			f := &encrypt.Filter{Wrapper: keys[0].Wrapper(), HmacSalt: []byte("s"), HmacInfo: []byte("i")}
+			encs = append(encs, f)
+			n = f
+		case "gated":
+			f := &gated.Filter{Broker: b}
+			gats = append(gats, f)
+			n = f
+		case "gatedNoBroker":
+			f := &gated.Filter{}
+			gats = append(gats, f)
+			n = f
+		case "json":
+			n = &eventlogger.JSONFormatter{}
+		case "jsonff":
+			n = &eventlogger.JSONFormatterFilter{Predicate: func(interface{}) (bool, error) { return true, nil }}
+		case "ce-json", "ce-text":
+			f := &cloudevents.FormatterFilter{Source: src, Format: cloudevents.FormatJSON, SignEventTypes: []string{"A"},
+				Signer: func(_ context.Context, b []byte) (string, error) { return fmt.Sprintf("sig%d", len(b)), nil }}
+			if kind == "ce-text" {
+				f.Format = cloudevents.FormatText
+			}
+			ces = append(ces, f)
+			n = f
+		case "file":
+			dir := filepath.Join(root, fmt.Sprintf("c%d-%s", caseNo, id))
+			n = &eventlogger.FileSink{Path: dir, FileName: "out.log", Format: formatKeyName, MaxBytes: 4000, MaxFiles: 0}
+			sinks[id] = &sinkObs{id: id, kind: "file", dir: dir}
+		case "writer":
+			buf := &lockedBuf{}
+			n = &writer.Sink{Format: formatKeyName, Writer: buf}
+			sinks[id] = &sinkObs{id: id, kind: "writer", buf: buf}
+		case "chan":
+			ch := make(chan *eventlogger.Event, 4)
+			cs, _ := channel.NewChannelSink(ch, 10*time.Second)
+			cnt := &atomic.Int64{}
+			stop := make(chan struct{})
+			stopDrain = append(stopDrain, stop)
+			drainWG.Add(1)
+			go func() {
+				defer drainWG.Done()
+				for {
+					select {
+					case <-ch:
+						cnt.Add(1)
+					case <-stop:
+						for {
+							select {
+							case <-ch:
+								cnt.Add(1)
+							default:
+								return
+							}
+						}
+					}
+				}
+			}()
+			n = cs
+			sinks[id] = &sinkObs{id: id, kind: "chan", count: cnt}
+		}
+		insts[id] = n
+		if err := b.RegisterNode(eventlogger.NodeID(id), n); err != nil {
+			t.Fatalf("harness: RegisterNode(%s): %v", id, err)
+		}
+		return id, n
+	}
+	hasGated := false
+	mutatingBehind := false
+	perType := map[string]int{}
+	for i, ps := range specs {
+		var ids []eventlogger.NodeID
+		var kinds []string
+		for _, fk := range ps.Filters {
+			id, _ := get(fk, ps.Share, "")
+			ids = append(ids, eventlogger.NodeID(id))
+			kinds = append(kinds, fk)
+			if fk == "gated" || fk == "gatedNoBroker" {
+				hasGated = true
+			}
+		}
+		id, _ := get(ps.Fmt, ps.Share, "")
+		ids = append(ids, eventlogger.NodeID(id))
+		kinds = append(kinds, ps.Fmt)
+		id, _ = get(ps.Sink, ps.Share, formatKey(ps.Fmt))
+		ids = append(ids, eventlogger.NodeID(id))
+		kinds = append(kinds, ps.Sink)
+		for k := 1; k < len(kinds); k++ {
+			pairSeen.Store(kinds[k-1]+">"+kinds[k], true)
+			if k >= 1 && (kinds[k] == "encrypt" || strings.HasPrefix(kinds[k], "gated")) {
+				mutatingBehind = true
+			}
+		}
+		if len(ps.Filters) > 0 && (ps.Filters[0] == "encrypt" || strings.HasPrefix(ps.Filters[0], "gated")) && i > 0 {
+			mutatingBehind = true // behind the root of a sibling pipeline in range order
+		}
+		if err := b.RegisterPipeline(eventlogger.Pipeline{PipelineID: eventlogger.PipelineID(fmt.Sprintf("p%d", i)), EventType: eventlogger.EventType(ps.ET), NodeIDs: ids}); err != nil {
+			t.Fatalf("harness: RegisterPipeline %v: %v", ids, err)
+		}
+		perType[ps.ET]++
+	}
+	ctx := context.Background()
+	var wg sync.WaitGroup
+	completions := sync.Map{} // sink id -> *atomic.Int64
+	for id := range sinks {
+		completions.Store(id, &atomic.Int64{})
+	}
+	stop := make(chan struct{})
+	var cwg sync.WaitGroup
+	if controls {
+		ctl := func(f func(i int)) {
+			cwg.Add(1)
+			go func() {
+				defer cwg.Done()
+				for i := 0; ; i++ {
+					select {
+					case <-stop:
+						return
+					default:
+					}
+					f(i)
+					time.Sleep(50 * time.Microsecond)
+				}
+			}()
+		}
+		ctl(func(int) { _ = b.Reopen(ctx) })
+		ctl(func(i int) { _ = b.SetSuccessThreshold("A", i%2); _ = b.SetSuccessThresholdSinks("B", 0) })
+		if len(encs) > 0 {
+			ctl(func(i int) {
+				for _, f := range encs {
+					f.Rotate(encrypt.WithWrapper(keys[i%2].Wrapper()), encrypt.WithSalt([]byte{byte(i)}))
+				}
+			})
+		}
+		if len(ces) > 0 {
+			ctl(func(i int) {
+				for _, f := range ces {
+					_ = f.Rotate(func(_ context.Context, b []byte) (string, error) { return fmt.Sprintf("rot%d-%d", i, len(b)), nil })
+				}
+			})
+		}
+		if len(gats) > 0 {
+			ctl(func(int) {
+				for _, f := range gats {
+					_ = f.FlushAll(ctx)
+				}
+			})
+		}
+	}
+	for s := 0; s < senders; s++ {
+		wg.Add(1)
+		go func(s int) {
+			defer wg.Done()
+			for i := 0; i < per; i++ {
+				et := "A"
+				if perType["B"] > 0 && (s+i)%3 == 0 {
+					et = "B"
+				}
+				var payload interface{}
+				switch {
+				case hasGated && i%2 == 0:
+					payload = &gated.Payload{ID: fmt.Sprintf("g%d", s), Flush: i%10 == 8, Header: map[string]interface{}{"user": "alice"}, Detail: map[string]interface{}{"i": i}}
+				case i%3 == 1:
+					payload = map[string]interface{}{"name": "bob", "n": i, "list": []string{"a", "b"}}
+				default:
+					payload = &P{ID: fmt.Sprintf("id-%d-%d", s, i), User: "alice", Secret: []byte("hunter2"), Digest: "d", Extra: map[string]interface{}{"k": "v"}, N: i}
+				}
+				st, _ := b.Send(ctx, eventlogger.EventType(et), payload)
+				for _, id := range st.CompleteSinks() {
+					if c, ok := completions.Load(string(id)); ok {
+						c.(*atomic.Int64).Add(1)
+					}
+				}
+			}
+		}(s)
+	}
+	done := make(chan struct{})
+	go func() { wg.Wait(); close(done) }()
+	select {
+	case <-done:
+	case <-time.After(120 * time.Second):
+		t.Fatalf("VIOLATION C19: senders did not finish within 120s (deadlock)\ncase: %s", desc)
+	}
+	close(stop)
+	cwg.Wait()
+	// composites emitted by control-goroutine FlushAll go through Send again: their completions are not
+	// seen by the senders, so for compositions with a broker-wired gated filter only ">=" holds
+	loose := false
+	for _, g := range gats {
+		if g.Broker != nil {
+			loose = true
+		}
+		_ = g.FlushAll(ctx)
+	}
+	for _, sd := range stopDrain {
+		close(sd)
+	}
+	drainWG.Wait()
+	var ids []string
+	for id := range sinks {
+		ids = append(ids, id)
+	}
+	sort.Strings(ids)
+	for _, id := range ids {
+		so := sinks[id]
+		c, _ := completions.Load(id)
+		want := int(c.(*atomic.Int64).Load())
+		got := 0
+		switch so.kind {
+		case "chan":
+			got = int(so.count.Load())
+		case "writer", "file":
+			var data []byte
+			if so.kind == "writer" {
+				data = so.buf.Bytes()
+			} else {
+				ents, _ := os.ReadDir(so.dir)
+				var names []string
+				for _, e := range ents {
+					names = append(names, e.Name())
+				}
+				sort.Strings(names)
+				for _, n := range names {
+					bb, _ := os.ReadFile(filepath.Join(so.dir, n))
+					if _, derr := countDocs(bb); derr != nil {
+						t.Fatalf("VIOLATION C19: file %s of sink %s is not a sequence of complete JSON documents: %v\ncase: %s", n, id, derr, desc)
+					}
+					data = append(data, bb...)
+				}
+			}
+			n, derr := countDocs(data)
+			if derr != nil {
+				t.Fatalf("VIOLATION C19: output of sink %s is corrupted: %v\ncase: %s", id, derr, desc)
+			}
+			got = n
+		}
+		if got < want || (!loose && got != want) {
+			t.Fatalf("VIOLATION C19: sink %s holds %d documents, Status reported %d successful completions\ncase: %s", id, got, want, desc)
+		}
+	}
+	return compResult{desc: desc, hasGated: hasGated, mutatingBehind: mutatingBehind, perType: perType, nEnc: len(encs), nCE: len(ces)}
+}
+
 func TestC19SharedNodes(t *testing.T) {
 	sec := stats.Sec("shared_nodes", rule)
 	root, err := os.MkdirTemp("", "verif-c19-")
@@ -118,7 +398,6 @@ func TestC19SharedNodes(t *testing.T) {
 	}
 	defer os.RemoveAll(root)
 	caseNo := 0
-	src, _ := url.Parse("https://example.test/src")
 	rapid.Check(t, func(t *rapid.T) {
 		caseNo++
 		np := rapid.IntRange(1, 4).Draw(t, "pipelines")
@@ -136,294 +415,84 @@ func TestC19SharedNodes(t *testing.T) {
 		senders := rapid.IntRange(2, 8).Draw(t, "senders")
 		per := rapid.IntRange(20, 150).Draw(t, "sendsPerSender")
 		controls := rapid.Bool().Draw(t, "controlGoroutines")
-		var descParts []string
-		for _, s := range specs {
-			descParts = append(descParts, s.String())
-		}
-		desc := fmt.Sprintf("%s senders=%d sends=%d controls=%v", strings.Join(descParts, " | "), senders, per, controls)
-
-		b, _ := eventlogger.NewBroker()
-		insts := map[string]eventlogger.Node{}
-		var encs []*encrypt.Filter
-		var ces []*cloudevents.FormatterFilter
-		var gats []*gated.Filter
-		sinks := map[string]*sinkObs{}
-		var stopDrain []chan struct{}
-		var drainWG sync.WaitGroup
-		keys := []cryptoref.Key{cryptoref.NewKey(1), cryptoref.NewKey(2)}
-		get := func(kind string, share int, formatKeyName string) (string, eventlogger.Node) {
-			id := fmt.Sprintf("%s-%d", kind, share)
-			if kind == "file" || kind == "writer" || kind == "chan" {
-				id += "-" + formatKeyName
-			}
-			if n, ok := insts[id]; ok {
-				return id, n
-			}
-			var n eventlogger.Node
-			switch kind {
-			case "filter":
-				n = &eventlogger.Filter{Predicate: func(e *eventlogger.Event) (bool, error) { return true, nil }}
-			case "encrypt":
-				f := &encrypt.Filter{Wrapper: keys[0].Wrapper(), HmacSalt: []byte("s"), HmacInfo: []byte("i")}
-				encs = append(encs, f)
-				n = f
-			case "gated":
-				f := &gated.Filter{Broker: b}
-				gats = append(gats, f)
-				n = f
-			case "gatedNoBroker":
-				f := &gated.Filter{}
-				gats = append(gats, f)
-				n = f
-			case "json":
-				n = &eventlogger.JSONFormatter{}
-			case "jsonff":
-				n = &eventlogger.JSONFormatterFilter{Predicate: func(interface{}) (bool, error) { return true, nil }}
-			case "ce-json", "ce-text":
-				f := &cloudevents.FormatterFilter{Source: src, Format: cloudevents.FormatJSON, SignEventTypes: []string{"A"},
-					Signer: func(_ context.Context, b []byte) (string, error) { return fmt.Sprintf("sig%d", len(b)), nil }}
-				if kind == "ce-text" {
-					f.Format = cloudevents.FormatText
-				}
-				ces = append(ces, f)
-				n = f
-			case "file":
-				dir := filepath.Join(root, fmt.Sprintf("c%d-%s", caseNo, id))
-				n = &eventlogger.FileSink{Path: dir, FileName: "out.log", Format: formatKeyName, MaxBytes: 4000, MaxFiles: 0}
-				sinks[id] = &sinkObs{id: id, kind: "file", dir: dir}
-			case "writer":
-				buf := &lockedBuf{}
-				n = &writer.Sink{Format: formatKeyName, Writer: buf}
-				sinks[id] = &sinkObs{id: id, kind: "writer", buf: buf}
-			case "chan":
-				ch := make(chan *eventlogger.Event, 4)
-				cs, _ := channel.NewChannelSink(ch, 10*time.Second)
-				cnt := &atomic.Int64{}
-				stop := make(chan struct{})
-				stopDrain = append(stopDrain, stop)
-				drainWG.Add(1)
-				go func() {
-					defer drainWG.Done()
-					for {
-						select {
-						case <-ch:
-							cnt.Add(1)
-						case <-stop:
-							for {
-								select {
-								case <-ch:
-									cnt.Add(1)
-								default:
-									return
-								}
-							}
-						}
-					}
-				}()
-				n = cs
-				sinks[id] = &sinkObs{id: id, kind: "chan", count: cnt}
-			}
-			insts[id] = n
-			if err := b.RegisterNode(eventlogger.NodeID(id), n); err != nil {
-				t.Fatalf("harness: RegisterNode(%s): %v", id, err)
-			}
-			return id, n
-		}
-		hasGated := false
-		mutatingBehind := false
-		perType := map[string]int{}
-		for i, ps := range specs {
-			var ids []eventlogger.NodeID
-			var kinds []string
-			for _, fk := range ps.Filters {
-				id, _ := get(fk, ps.Share, "")
-				ids = append(ids, eventlogger.NodeID(id))
-				kinds = append(kinds, fk)
-				if fk == "gated" || fk == "gatedNoBroker" {
-					hasGated = true
-				}
-			}
-			id, _ := get(ps.Fmt, ps.Share, "")
-			ids = append(ids, eventlogger.NodeID(id))
-			kinds = append(kinds, ps.Fmt)
-			id, _ = get(ps.Sink, ps.Share, formatKey(ps.Fmt))
-			ids = append(ids, eventlogger.NodeID(id))
-			kinds = append(kinds, ps.Sink)
-			for k := 1; k < len(kinds); k++ {
-				pairSeen.Store(kinds[k-1]+">"+kinds[k], true)
-				if k >= 1 && (kinds[k] == "encrypt" || strings.HasPrefix(kinds[k], "gated")) {
-					mutatingBehind = true
-				}
-			}
-			if len(ps.Filters) > 0 && (ps.Filters[0] == "encrypt" || strings.HasPrefix(ps.Filters[0], "gated")) && i > 0 {
-				mutatingBehind = true // behind the root of a sibling pipeline in range order
-			}
-			if err := b.RegisterPipeline(eventlogger.Pipeline{PipelineID: eventlogger.PipelineID(fmt.Sprintf("p%d", i)), EventType: eventlogger.EventType(ps.ET), NodeIDs: ids}); err != nil {
-				t.Fatalf("harness: RegisterPipeline %v: %v", ids, err)
-			}
-			perType[ps.ET]++
-		}
-		ctx := context.Background()
-		var wg sync.WaitGroup
-		completions := sync.Map{} // sink id -> *atomic.Int64
-		for id := range sinks {
-			completions.Store(id, &atomic.Int64{})
-		}
-		stop := make(chan struct{})
-		var cwg sync.WaitGroup
-		if controls {
-			ctl := func(f func(i int)) {
-				cwg.Add(1)
-				go func() {
-					defer cwg.Done()
-					for i := 0; ; i++ {
-						select {
-						case <-stop:
-							return
-						default:
-						}
-						f(i)
-						time.Sleep(50 * time.Microsecond)
-					}
-				}()
-			}
-			ctl(func(int) { _ = b.Reopen(ctx) })
-			ctl(func(i int) { _ = b.SetSuccessThreshold("A", i%2); _ = b.SetSuccessThresholdSinks("B", 0) })
-			if len(encs) > 0 {
-				ctl(func(i int) {
-					for _, f := range encs {
-						f.Rotate(encrypt.WithWrapper(keys[i%2].Wrapper()), encrypt.WithSalt([]byte{byte(i)}))
-					}
-				})
-			}
-			if len(ces) > 0 {
-				ctl(func(i int) {
-					for _, f := range ces {
-						_ = f.Rotate(func(_ context.Context, b []byte) (string, error) { return fmt.Sprintf("rot%d-%d", i, len(b)), nil })
-					}
-				})
-			}
-			if len(gats) > 0 {
-				ctl(func(int) {
-					for _, f := range gats {
-						_ = f.FlushAll(ctx)
-					}
-				})
-			}
-		}
-		for s := 0; s < senders; s++ {
-			wg.Add(1)
-			go func(s int) {
-				defer wg.Done()
-				for i := 0; i < per; i++ {
-					et := "A"
-					if perType["B"] > 0 && (s+i)%3 == 0 {
-						et = "B"
-					}
-					var payload interface{}
-					switch {
-					case hasGated && i%2 == 0:
-						payload = &gated.Payload{ID: fmt.Sprintf("g%d", s), Flush: i%10 == 8, Header: map[string]interface{}{"user": "alice"}, Detail: map[string]interface{}{"i": i}}
-					case i%3 == 1:
-						payload = map[string]interface{}{"name": "bob", "n": i, "list": []string{"a", "b"}}
-					default:
-						payload = &P{ID: fmt.Sprintf("id-%d-%d", s, i), User: "alice", Secret: []byte("hunter2"), Digest: "d", Extra: map[string]interface{}{"k": "v"}, N: i}
-					}
-					st, _ := b.Send(ctx, eventlogger.EventType(et), payload)
-					for _, id := range st.CompleteSinks() {
-						if c, ok := completions.Load(string(id)); ok {
-							c.(*atomic.Int64).Add(1)
-						}
-					}
-				}
-			}(s)
-		}
-		done := make(chan struct{})
-		go func() { wg.Wait(); close(done) }()
-		select {
-		case <-done:
-		case <-time.After(120 * time.Second):
-			t.Fatalf("VIOLATION C19: senders did not finish within 120s (deadlock)\ncase: %s", desc)
-		}
-		close(stop)
-		cwg.Wait()
-		// composites emitted by control-goroutine FlushAll go through Send again: their completions are not
-		// seen by the senders, so for compositions with a broker-wired gated filter only ">=" holds
-		loose := false
-		for _, g := range gats {
-			if g.Broker != nil {
-				loose = true
-			}
-			_ = g.FlushAll(ctx)
-		}
-		for _, sd := range stopDrain {
-			close(sd)
-		}
-		drainWG.Wait()
-		var ids []string
-		for id := range sinks {
-			ids = append(ids, id)
-		}
-		sort.Strings(ids)
-		for _, id := range ids {
-			so := sinks[id]
-			c, _ := completions.Load(id)
-			want := int(c.(*atomic.Int64).Load())
-			got := 0
-			switch so.kind {
-			case "chan":
-				got = int(so.count.Load())
-			case "writer", "file":
-				var data []byte
-				if so.kind == "writer" {
-					data = so.buf.Bytes()
-				} else {
-					ents, _ := os.ReadDir(so.dir)
-					var names []string
-					for _, e := range ents {
-						names = append(names, e.Name())
-					}
-					sort.Strings(names)
-					for _, n := range names {
-						bb, _ := os.ReadFile(filepath.Join(so.dir, n))
-						if _, derr := countDocs(bb); derr != nil {
-							t.Fatalf("VIOLATION C19: file %s of sink %s is not a sequence of complete JSON documents: %v\ncase: %s", n, id, derr, desc)
-						}
-						data = append(data, bb...)
-					}
-				}
-				n, derr := countDocs(data)
-				if derr != nil {
-					t.Fatalf("VIOLATION C19: output of sink %s is corrupted: %v\ncase: %s", id, derr, desc)
-				}
-				got = n
-			}
-			if got < want || (!loose && got != want) {
-				t.Fatalf("VIOLATION C19: sink %s holds %d documents, Status reported %d successful completions\ncase: %s", id, got, want, desc)
-			}
-		}
-		multi := false
-		for _, n := range perType {
-			if n >= 2 {
-				multi = true
-			}
-		}
-		npairs := 0
-		pairSeen.Range(func(_, _ interface{}) bool { npairs++; return true })
-		sec.Set("neighbour_pairs_covered", npairs)
-		cl := []string{fmt.Sprintf("pipelines=%d", np)}
-		if controls {
-			cl = append(cl, "control_goroutines")
-		}
-		if hasGated {
-			cl = append(cl, "gated")
-		}
-		if len(encs) > 0 {
-			cl = append(cl, "encrypt")
-		}
-		if len(ces) > 0 {
-			cl = append(cl, "cloudevents")
-		}
-		sec.Case(multi && mutatingBehind, desc, cl...)
+		r := runComp(t, root, caseNo, specs, senders, per, controls)
+		record(sec, r, np, controls)
 	})
+}
+
+func record(sec *stats.Section, r compResult, np int, controls bool) {
+	multi := false
+	for _, n := range r.perType {
+		if n >= 2 {
+			multi = true
+		}
+	}
+	npairs := 0
+	pairSeen.Range(func(_, _ interface{}) bool { npairs++; return true })
+	sec.Set("neighbour_pairs_covered", npairs)
+	cl := []string{fmt.Sprintf("pipelines=%d", np)}
+	if controls {
+		cl = append(cl, "control_goroutines")
+	}
+	if r.hasGated {
+		cl = append(cl, "gated")
+	}
+	if r.nEnc > 0 {
+		cl = append(cl, "encrypt")
+	}
+	if r.nCE > 0 {
+		cl = append(cl, "cloudevents")
+	}
+	sec.Case(multi && r.mutatingBehind, r.desc, cl...)
+}
+
+// TestC19Pairs enumerates every ordered pair of node kinds as consecutive nodes of one pipeline and as
+// first nodes of two sibling pipelines of one event type (the sibling position is where one pipeline's
+// private copy / formatting can race with another pipeline working on the same event).
+func TestC19Pairs(t *testing.T) {
+	sec := stats.Sec("neighbour_pairs", "exhaustive over ordered pairs of stock node kinds: (filter kind -> filter kind), (filter kind -> formatter kind), (formatter kind -> sink kind) as neighbours in one pipeline, and every (first-node kind, first-node kind) pair of two sibling pipelines on one event type; each composition is run with 4 senders x 60 Sends plus the control goroutines under -race; same oracle as shared_nodes; non-trivial = every composition (two pipelines or a mutating node behind another node)")
+	root, err := os.MkdirTemp("", "verif-c19p-")
+	if err != nil {
+		t.Skip(err.Error())
+	}
+	defer os.RemoveAll(root)
+	var comps [][]pipeSpec
+	for _, a := range filterKinds {
+		for _, b := range filterKinds {
+			comps = append(comps, []pipeSpec{{ET: "A", Filters: []string{a, b}, Fmt: "json", Sink: "writer"}, {ET: "A", Fmt: "json", Sink: "file", Share: 1}})
+		}
+		for _, f := range fmtKinds {
+			comps = append(comps, []pipeSpec{{ET: "A", Filters: []string{a}, Fmt: f, Sink: "file"}, {ET: "A", Fmt: f, Sink: "writer"}})
+		}
+	}
+	for _, f := range fmtKinds {
+		for _, k := range sinkKinds {
+			comps = append(comps, []pipeSpec{{ET: "A", Fmt: f, Sink: k}, {ET: "A", Filters: []string{"filter"}, Fmt: f, Sink: k, Share: 1}})
+		}
+	}
+	firsts := append(append([]string{}, filterKinds...), fmtKinds...)
+	for _, a := range firsts {
+		for _, b := range firsts {
+			mk := func(k string, share int) pipeSpec {
+				for _, f := range fmtKinds {
+					if f == k {
+						return pipeSpec{ET: "A", Fmt: k, Sink: "writer", Share: share}
+					}
+				}
+				return pipeSpec{ET: "A", Filters: []string{k}, Fmt: "json", Sink: "writer", Share: share}
+			}
+			comps = append(comps, []pipeSpec{mk(a, 0), mk(b, 1)})
+		}
+	}
+	shard, n := stats.Shard()
+	sec.Set("compositions", len(comps))
+	for i, specs := range comps {
+		if i%n != shard {
+			continue
+		}
+		r := runComp(t, root, 100000+i, specs, 4, 60, true)
+		multi := true
+		_ = multi
+		sec.CaseEnum(true, func() string { return r.desc }, "pair_composition")
+	}
 }
